@@ -204,6 +204,17 @@ static void judge(const c18_prog_t* prog, const exec_t* ex, verdict_t* v)
 			if (next[t] != prog->nops[t]) vadd(v, "ATOMIC thread %d executed %d atomic steps for %d operations", t, next[t], prog->nops[t]);
 		if (ex->obs.ctr_final != ctr) vadd(v, "ATOMIC final counter %lu, expected %lu", ex->obs.ctr_final, ctr);
 	}
+	else if (prog->kind == 't')
+	{
+		/* tmFreq(): the value is computed once (mtCallOnce) and every caller that returns must see that value */
+		for (t = 1; t <= prog->nthr; ++t)
+			for (k = 0; k < prog->nops[t]; ++k)
+			{
+				if (!ex->obs.done[t][k]) vadd(v, "TM thread %d op %d did not complete", t, k);
+				else if (ex->obs.ret[t][k] == 0 || ex->obs.ret[t][k] != ex->obs.ctr_final)
+					vadd(v, "TM thread %d returned from tmFreq() with another value than the once-computed frequency", t);
+			}
+	}
 	else if (prog->kind == 'r')
 	{
 		int opens = 0;
